@@ -663,7 +663,12 @@ class Beam(_Simu):
 
         # end cases ----------------------------------------------------
 
-        return self.Results_Reshape_values(values, nodeValues)
+        # displacements and nodal forces are stored at nodes, every other result on elements
+        nodalResults = ["ux", "uy", "uz", "rx", "ry", "rz"]
+        nodalResults += ["fx", "fy", "fz", "cx", "cy", "cz"]
+        storedAtNodes = result in nodalResults or result.startswith("displacement")
+
+        return self.Results_Reshape_values(values, nodeValues, storedAtNodes)
 
     def _indexResult(self, result: str) -> int:
         # "Beam1D" : ["ux" "fx"]
